@@ -181,7 +181,7 @@ func (e expBlock) matches(b []byte, blk uint64) (bool, string) {
 func runSeq(p *DPlan, system string, keepLog bool, prefix string) seqResult {
 	var res seqResult
 	tape := simrt.Replay(nil, nil)
-	s := simrt.New(simrt.Config{Tape: tape, KeepLog: keepLog, MaxSteps: 2000000})
+	s := simrt.New(simrt.Config{DaemonsOK: true, Tape: tape, KeepLog: keepLog, MaxSteps: 2000000})
 	k := simunix.NewKernel(simunix.Config{Ordered: p.Ordered, Trace: keepLog})
 	path := "/disk.img"
 	isFile := system == "file" || system == "async-file" || system == "file/global" || system == "async-file/global"
@@ -699,6 +699,20 @@ func genSeqOps(rng *simrt.Rand, n uint64, count int, idBase uint64, odd bool) []
 		switch rng.Intn(12) {
 		case 0, 1, 2, 3:
 			op := SeqOp{Kind: "write", Addr: a, ID: idBase + uint64(i) + 1, Shared: rng.Chance(1, 4), Scribble: rng.Chance(1, 3)}
+			if rng.Chance(1, 8) {
+				op.ID = 0 // an all-zero block
+			} else if rng.Chance(1, 8) {
+				// the same content as an earlier write (possibly to this address)
+				for j := len(ops) - 1; j >= 0; j-- {
+					if ops[j].Kind == "write" && ops[j].BufLen == 0 {
+						op.ID = ops[j].ID
+						if rng.Chance(1, 2) {
+							op.Addr = ops[j].Addr
+						}
+						break
+					}
+				}
+			}
 			if odd && rng.Chance(1, 8) {
 				op.BufLen = rng.Pick(1, 4095, 4097, 8192, 8)
 			}
